@@ -41,7 +41,7 @@ var udpOOBSize = func() int {
 	return len(oob6)
 }()
 
-func (p Proxy) serveUDP(l net.PacketConn, inflightRequests chan struct{}) error {
+func (p Proxy) serveUDP(ctx context.Context, l net.PacketConn, inflightRequests chan struct{}) error {
 	bpool := sync.Pool{
 		New: func() interface{} {
 			// Use the same buffer size as for TCP and truncate later. UDP and
@@ -62,7 +62,13 @@ func (p Proxy) serveUDP(l net.PacketConn, inflightRequests chan struct{}) error 
 	}
 
 	for {
-		inflightRequests <- struct{}{}
+		// Do not let a full set of in-flight requests delay the stop: the
+		// closed socket is only noticed once a slot has been obtained.
+		select {
+		case inflightRequests <- struct{}{}:
+		case <-ctx.Done():
+			return ctx.Err()
+		}
 		buf := *bpool.Get().(*[]byte)
 		qsize, lip, raddr, err := readUDP(c, buf)
 		if err != nil {
